@@ -399,6 +399,8 @@ def analyze(case, real, spec):
                 ds.append({'cat': 'contract', 'step': i, 'detail': ro['contract'][:3]})
             if ro.get('tmp_leak'):
                 ds.append({'cat': 'tmp_leak', 'step': i, 'detail': ro['tmp_leak']})
+            if ro.get('cache_early'):
+                ds.append({'cat': 'cache_early', 'step': i, 'detail': ro['cache_early'][:2]})
             failed = 'exc' in ro['res']
             if failed:
                 stats['failing_builds'] += 1
